@@ -226,7 +226,7 @@ def c01(tier):
     ck = Check('C01', tier)
     q = tier == 'quick'
     cfg = {'modes': [0], 'exh_cap': 300 if q else 700, 'exh_len': 5 if q else 6, 'n_rand': 40, 'n_mut': 60, 'long': (30, 120) if q else (60, 400, 1500)}
-    merge(ck, run_pipeline('C01', tier, gen_grammars('C01', tier, 320 if q else 4000, 'plain'), cfg))
+    merge(ck, run_pipeline('C01', tier, gen_grammars('C01', tier, 800 if q else 6000, 'plain'), cfg))
     ck.cov['rule'] = ('grammars: fixed core corpus + seeded random/mutated/spliced grammars, classified by a reference canonical LR(1) construction; '
                       'inputs: all term strings up to a length bound, random derivations, one-token mutations, raw bytes; a case is (grammar, input bytes); '
                       'distinct_nontrivial counts distinct (grammar,input) pairs whose grammar has >= 6 LR(1) states')
@@ -277,7 +277,7 @@ def c11(tier):
     ck = Check('C11', tier)
     q = tier == 'quick'
     cfg = {'modes': [1], 'exh_cap': 40, 'exh_len': 4, 'n_rand': 12, 'n_mut': 12, 'long': (20,), 'n_ws': 2, 'n_raw': 2}
-    merge(ck, run_pipeline('C11', tier, gen_grammars('C11', tier, 320 if q else 4000, 'allclasses'), cfg))
+    merge(ck, run_pipeline('C11', tier, gen_grammars('C11', tier, 640 if q else 6000, 'allclasses'), cfg))
     ck.cov['rule'] = ('grammars of all classes (conflict-free, S/R with random precedence, R/R, cyclic); write_diag_str text is parsed back and compared (a) with the reference LR(1) '
                       'states/items/actions/conflicts, (b) cell by cell with the raw table read through the hook, (c) with the actions of verbose traces of real parses; '
                       'a case is one grammar; distinct_nontrivial = distinct grammars with a conflict or >= 6 states')
